@@ -70,6 +70,7 @@ type asmCase struct {
 	Rule   *asmRule `json:"rule,omitempty"`
 	Creds  string   `json:"creds"` // none good bad
 	Slash  bool     `json:"encoded_slash,omitempty"`
+	Login  *string  `json:"login_url_header"` // X-Login-Url request header (nil = absent): what redir_hdr's `to` template renders
 	id     int
 }
 
@@ -140,10 +141,17 @@ func asmCoqStep(s asmStep) string {
 	return vf.CoqApp("stp", asmCoqCond(s.If), out, vf.CoqBool(cont))
 }
 
-func asmCoqEH(s asmStep) string {
+func asmCoqEH(s asmStep, login *string) string {
 	k := "(EhReal MDefault)"
 
 	switch s.M {
+	case "redir_hdr":
+		to := ""
+		if login != nil {
+			to = *login
+		}
+
+		k = "(EhReal (MRedirect 0%Z (Some " + vf.CoqStr(to) + ")))"
 	case "redir":
 		k = `(EhReal (MRedirect 0%Z (Some "http://idp.example/login"%string)))`
 	case "redir301":
@@ -179,10 +187,11 @@ func asmEffective(own, def *asmRule) asmRule {
 	return eff
 }
 
-func asmCoqRule(r asmRule, creds string, backend, slashesOff bool) string {
+func asmCoqRule(r asmRule, creds string, login *string, backend, slashesOff bool) string {
 	return vf.CoqApp("rl",
 		vf.CoqListOf(r.Authn, func(m string) string { return asmCoqAuthn(m, creds) }),
-		vf.CoqListOf(r.SH, asmCoqStep), vf.CoqListOf(r.FI, asmCoqStep), vf.CoqListOf(r.EH, asmCoqEH),
+		vf.CoqListOf(r.SH, asmCoqStep), vf.CoqListOf(r.FI, asmCoqStep),
+		vf.CoqListOf(r.EH, func(s asmStep) string { return asmCoqEH(s, login) }),
 		vf.CoqBool(backend), vf.CoqBool(slashesOff))
 }
 
@@ -228,6 +237,8 @@ func asmMechanisms(helper string) map[string]any {
 			map[string]any{"id": "dflt", "type": "default"},
 			map[string]any{"id": "redir", "type": "redirect", "config": map[string]any{"to": "http://idp.example/login"}},
 			map[string]any{"id": "redir301", "type": "redirect", "config": map[string]any{"to": "/local", "code": 301}},
+			// request dependent target: renders nothing when the header is absent
+			map[string]any{"id": "redir_hdr", "type": "redirect", "config": map[string]any{"to": `{{ .Request.Header "X-Login-Url" }}`}},
 			// no www_authenticate handler here: it cannot be declared in a configuration file at all (the schema
 			// demands type "www-authenticate", the type registry only knows "www_authenticate"); the first stream
 			// runs the real mechanism
@@ -468,7 +479,7 @@ func asmGenRule(r *vf.Rand, calm, isDefault bool) *asmRule {
 	}
 
 	for i, m := 0, r.Intn(4); i < m; i++ {
-		rl.EH = append(rl.EH, asmStep{M: vf.Pick(r, []string{"dflt", "redir", "redir301"}), If: cond()})
+		rl.EH = append(rl.EH, asmStep{M: vf.Pick(r, []string{"dflt", "redir", "redir301", "redir_hdr", "redir_hdr"}), If: cond()})
 	}
 
 	if !isDefault {
@@ -531,6 +542,16 @@ func asmGenCase(r *vf.Rand, b asmBatch, batch int) asmCase {
 	c := asmCase{Batch: batch, Creds: vf.Pick(r, []string{"none", "good", "bad", "none", "good"}), Slash: r.Chance(15)}
 
 	switch x := r.Intn(100); {
+	case x < 45:
+	case x < 60:
+		v := vf.Pick(r, []string{"", "  "})
+		c.Login = &v
+	default:
+		v := "http://idp.example/from-header"
+		c.Login = &v
+	}
+
+	switch x := r.Intn(100); {
 	case x < 80:
 		c.Lookup = "matched"
 		c.Rule = asmGenRule(r, r.Chance(50), false)
@@ -582,14 +603,20 @@ func asmPath(c asmCase) string {
 }
 
 func asmHeaders(c asmCase) map[string]string {
+	h := map[string]string{}
+
 	switch c.Creds {
 	case "good":
-		return map[string]string{"Authorization": "Basic " + base64.StdEncoding.EncodeToString([]byte("u:p"))}
+		h["Authorization"] = "Basic " + base64.StdEncoding.EncodeToString([]byte("u:p"))
 	case "bad":
-		return map[string]string{"Authorization": "Basic " + base64.StdEncoding.EncodeToString([]byte("u:wrong"))}
+		h["Authorization"] = "Basic " + base64.StdEncoding.EncodeToString([]byte("u:wrong"))
 	}
 
-	return map[string]string{}
+	if c.Login != nil {
+		h["X-Login-Url"] = *c.Login
+	}
+
+	return h
 }
 
 func asmCoqGCode(s string) string {
@@ -644,10 +671,10 @@ func asmCoqCase(c asmCase, b asmBatch, o asmObs) string {
 	switch c.Lookup {
 	case "matched":
 		// a regular rule: forward_to present; encoded slashes are rejected unless allowed
-		l = vf.CoqApp("Matched", asmCoqRule(asmEffective(c.Rule, b.Default), c.Creds, true, c.Rule.Slashes != "on"))
+		l = vf.CoqApp("Matched", asmCoqRule(asmEffective(c.Rule, b.Default), c.Creds, c.Login, true, c.Rule.Slashes != "on"))
 	case "default":
 		// the default rule has no forward_to and rejects encoded slashes
-		l = vf.CoqApp("Default", asmCoqRule(*b.Default, c.Creds, false, true))
+		l = vf.CoqApp("Default", asmCoqRule(*b.Default, c.Creds, c.Login, false, true))
 	default:
 		l = "NoRule"
 	}
@@ -676,6 +703,27 @@ func asmClass(e asmEntry, proxy bool) string {
 func asmTags(c asmCase, b asmBatch, o asmObs) []string {
 	t := []string{"asm-lookup:" + c.Lookup, "asm-creds:" + c.Creds, "asm-decision:" + asmClass(o.Decision, false),
 		"asm-proxy:" + asmClass(o.Proxy, true), "asm-envoy:" + asmClass(o.Envoy, false)}
+
+	for _, h := range func() []asmStep {
+		switch c.Lookup {
+		case "matched":
+			return asmEffective(c.Rule, b.Default).EH
+		case "default":
+			return b.Default.EH
+		}
+
+		return nil
+	}() {
+		if h.M == "redir_hdr" {
+			if c.Login == nil || len(*c.Login) == 0 || *c.Login == "  " {
+				t = append(t, "asm-redirect-to-renders-empty-or-blank")
+			} else {
+				t = append(t, "asm-redirect-to-from-request")
+			}
+
+			break
+		}
+	}
 
 	if c.Rule != nil && b.Default != nil &&
 		(len(c.Rule.Authn) == 0 || len(c.Rule.SH) == 0 || len(c.Rule.FI) == 0 || len(c.Rule.EH) == 0) {
